@@ -107,7 +107,7 @@ Definition h_out (h : hstate) (ok : bool) : list Z :=
      | Some l => 1 :: w_out (ldm_window l) ++ [ldm_loadedDictEnd l; cksum (ldm_table l)]
      | None => [0]
      end
-  ++ [b2z ok].
+  ++ [b2z (h_optFirst h); b2z ok].
 
 (* one history step: returns the new state and the canonical result line *)
 (* opcode 108 (tie device, not an operation of the code): replace the match-state window, loadedDictEnd,
@@ -117,7 +117,7 @@ Definition inject (h : hstate) (a : list Z) : hstate :=
   let '(w, r) := w_in a in
   let ms := h_ms h in
   mkH (mkMS w (nthz r 0) (nthz r 3) (z2b (nthz r 1)) (ms_hashLog3 ms) (ms_dds ms) (ms_tables ms))
-      (h_ldm h) (h_params h) (z2b (nthz r 2)).
+      (h_ldm h) (h_params h) (z2b (nthz r 2)) (z2b (nthz r 4)).
 
 Definition hist_step (freq : bool) (h : hstate) (opcode : Z) (a : list Z) : hstate * list Z :=
   if opcode =? 108 then let h' := inject h a in (h', h_out h' true) else
